@@ -7,6 +7,7 @@ from fractions import Fraction
 import numpy as np
 import z3
 
+from .fingerprint import fingerprint
 from .core import (RS, SymReal, Ctx, R, lift, _assume, _is_zero, _is_one,
                    PI, SQRT2, SQRTPI, SQRT3, LOG2PI, LOG2, LOGPI, E1)
 
@@ -72,6 +73,8 @@ def linear_terms(e):
             if k == z3.Z3_OP_DIV and z3.is_rational_value(ch[1]) and not _is_zero(ch[1]):
                 walk(ch[0], c / frac_of(ch[1]))
                 return
+            if k == z3.Z3_OP_DIV and _is_zero(ch[0]):
+                return  # 0/x == 0 wherever it is defined (x != 0 is a recorded assumption)
         out.append((c, x))
 
     walk(e, Fraction(1))
@@ -126,11 +129,17 @@ def exp_term(e):
                 (num if c > 0 else den).append(_ipow(sqrt_term(u), abs(c.numerator)))
                 continue
         a = abs(c)
+        # canonical orientation of the atom's argument: exp(-t) is written 1/exp(t)
+        fp = fingerprint(t)
+        pos = c > 0
+        if fp is not None and fp < 0:
+            t = z3.simplify(-t)
+            pos = not pos
         if a.denominator == 1 and a.numerator <= 6:
             atom = _ipow(UF["exp"](t), a.numerator)
         else:
             atom = UF["exp"](z3.simplify(rv(a) * t))
-        (num if c > 0 else den).append(atom)
+        (num if pos else den).append(atom)
     n = z3.RealVal(1)
     for x in num:
         n = x if _is_one(n) else n * x
@@ -232,6 +241,9 @@ def sqrt_term(e):
 
 
 def _neg_leading(e):
+    fp = fingerprint(e)
+    if fp is not None and fp != 0:
+        return fp < 0
     lt = linear_terms(e)
     return bool(lt) and lt[0][0] < 0
 
